@@ -581,6 +581,213 @@ def flush_delays():
     _DELAY_RECS.clear()
 
 
+# ---- switches (C03) ---------------------------------------------------------------------------------------
+_SW_RECS = {}        # id(switch) -> SwitchRec
+
+
+class _W:
+    """A registered switch-handler callable that logs its calls; equal to (and hashed like) the callable it wraps, so that
+    removal by (callback, state, ms) finds it exactly as it would find the original."""
+
+    __slots__ = ('f', 'hid', 'rec', 'ms', 'state')
+
+    def __init__(self, f):
+        self.f = f
+        self.hid = None
+        self.rec = None
+        self.ms = 0
+        self.state = 1
+
+    def __call__(self, *a, **kw):
+        r = self.rec
+        if r is not None and r.started and not r.dead:
+            if self.ms:
+                r.log(op='tfire', id=self.hid)
+            else:
+                r.log(op='call', id=self.hid)
+        return self.f(*a, **kw)
+
+    def __eq__(self, other):
+        if isinstance(other, _W):
+            other = other.f
+        return self.f == other
+
+    def __ne__(self, other):
+        return not self.__eq__(other)
+
+    def __hash__(self):
+        return hash(self.f)
+
+    def __getattr__(self, name):
+        return getattr(self.f, name)
+
+    def __repr__(self):
+        return repr(self.f)
+
+
+def _unwrap(cb):
+    for _ in range(4):
+        if isinstance(cb, _W):
+            return cb
+        cb = getattr(cb, 'func', None)
+        if cb is None:
+            return None
+    return None
+
+
+class SwitchRec:
+    def __init__(self, sc, switch):
+        self.sc = sc
+        self.switch = switch
+        self.started = False
+        self.dead = False
+        self.t0 = None
+        self.lines = []
+        self.in_report = 0
+        self.n = 0
+        self.head = None
+
+    def t(self):
+        return int(round((self.sc.machine.clock.get_time() - self.t0) * 10000))
+
+    def hid_of(self, w):
+        if w.hid is None:
+            self.n += 1
+            w.hid = 'h%d' % self.n
+            w.rec = self
+        return w.hid
+
+    def start(self):
+        sw = self.switch
+        self.started = True
+        self.t0 = self.sc.machine.clock.get_time()
+        reg0, timed0 = [], []
+        for state in (0, 1):
+            for entry in self.sc.registered_switches.get(sw, [[], []])[state]:
+                w = _unwrap(entry.callback)
+                if w is None:
+                    self.dead = True
+                    return
+                w.ms, w.state = int(round(entry.ms * 10)), state
+                reg0.append({'id': self.hid_of(w), 'state': state, 'ms': w.ms})
+        for k, lst in (self.sc._active_timed_switches.get(sw) or {}).items():
+            for e in lst:
+                w = _unwrap(e.callback)
+                if w is None or w.hid is None:
+                    self.dead = True
+                    return
+                timed0.append({'id': w.hid, 'due': int(round((k - self.t0) * 10000))})
+        last0 = max(-2000000000, int(round((sw.last_change - self.t0) * 10000)))
+        self.head = {'sw': 's_nc' if sw.invert else 's_no', 'st0': int(sw.state), 'hw0': int(sw.hw_state), 'last0': last0,
+                     'reg0': reg0, 'timed0': timed0}
+
+    def log(self, **kw):
+        if self.dead:
+            return
+        if len(self.lines) >= MAXLINES:
+            self.dead = True
+            return
+        kw['t'] = self.t()
+        if kw['t'] > 2000000000:
+            self.dead = True
+            return
+        self.lines.append(kw)
+
+    def emit(self):
+        if not self.started or self.head is None or not self.lines:
+            return
+        if not self.dead:
+            self.lines.append({'op': 'sync', 't': self.t(), 'st': int(self.switch.state)})
+        emit(dict(self.head, ev=self.lines), 's')
+
+
+def install_switches():
+    from mpf.core import switch_controller as S
+    SC = S.SwitchController
+    o_add, o_remove, o_proc = SC.add_switch_handler_obj, SC.remove_switch_handler_obj, SC.process_switch_obj
+
+    def rec_of(sc, switch):
+        r = _SW_RECS.get(id(switch))
+        if r is None or r.switch is not switch:
+            r = SwitchRec(sc, switch)
+            _SW_RECS[id(switch)] = r
+        return r
+
+    def ready(sc, r):
+        if r.dead:
+            return False
+        if not r.started:
+            if not getattr(sc, '_initialized', False):
+                return False
+            r.start()
+        return not r.dead
+
+    def add_switch_handler_obj(self, switch, callback, state=1, ms=0, return_info=False, callback_kwargs=None):
+        w = _W(callback)
+        r = rec_of(self, switch)
+        pre = ready(self, r)        # (the snapshot of a trace that starts here must not contain this registration)
+        res = o_add(self, switch, w, state, ms, return_info, callback_kwargs)
+        try:
+            w.ms, w.state = int(round(float(ms) * 10)), int(state)
+        except (TypeError, ValueError):
+            r.dead = True
+        if pre and not r.dead:
+            r.log(op='add', id=r.hid_of(w), state=int(state), ms=w.ms, nested=r.in_report > 0)
+        else:
+            r.hid_of(w)
+        return res
+
+    def remove_switch_handler_obj(self, switch, callback, state=1, ms=0):
+        r = rec_of(self, switch)
+        pre = ready(self, r)
+        ids = []
+        try:
+            for entry in self.registered_switches[switch][state]:
+                if entry.ms == ms and entry.callback == callback:
+                    w = _unwrap(entry.callback)
+                    if w is not None and w.hid is not None:
+                        ids.append(w.hid)
+                    else:
+                        r.dead = True
+        except (KeyError, IndexError, TypeError):
+            pass
+        res = o_remove(self, switch, callback, state, ms)
+        if pre:
+            for i in ids:
+                r.log(op='remove', id=i, nested=r.in_report > 0)
+        return res
+
+    def process_switch_obj(self, obj, state, logical, timestamp=None):
+        r = rec_of(self, obj)
+        foreign = timestamp is not None and abs(timestamp - self.machine.clock.get_time()) > 1e-6
+        if not getattr(self, '_initialized', False) or obj.is_muted or foreign or r.in_report > 0:
+            if r.started:
+                r.dead = True       # a change the model cannot follow (muted / not initialised / foreign timestamp / nested)
+            return o_proc(self, obj, state, logical, timestamp)
+        if not ready(self, r):
+            return o_proc(self, obj, state, logical, timestamp)
+        r.log(op='report', v=1 if state else 0, logical=bool(logical))
+        r.in_report += 1
+        try:
+            return o_proc(self, obj, state, logical, timestamp)
+        finally:
+            r.in_report -= 1
+            r.log(op='endreport', st=int(obj.state), hw=int(obj.hw_state))
+
+    SC.add_switch_handler_obj = add_switch_handler_obj
+    SC.remove_switch_handler_obj = remove_switch_handler_obj
+    SC.process_switch_obj = process_switch_obj
+
+
+def flush_switches():
+    for r in list(_SW_RECS.values()):
+        try:
+            r.emit()
+        except Exception:  # pylint: disable=broad-except
+            _STATE['stats']['s:tainted:emit'] += 1
+    _SW_RECS.clear()
+
+
 def drain():
     """Segments collected in memory (when no output directory is configured)."""
     m = _STATE.pop('mem_bus', [])
@@ -596,6 +803,7 @@ def pytest_configure(config):       # noqa: D103
     del config
     install()
     install_delays()
+    install_switches()
 
 
 def pytest_runtest_setup(item):     # noqa: D103
@@ -616,6 +824,7 @@ def pytest_runtest_teardown(item):     # noqa: D103
     del item
     flush_open_tasks()
     flush_delays()
+    flush_switches()
 
 
 def pytest_sessionfinish(session, exitstatus):      # noqa: D103
